@@ -208,7 +208,7 @@ func lowerKeys(m map[string][]string) map[string][]string {
 var implied = map[string]bool{"system:authenticated": true, "system:unauthenticated": true, "system:serviceaccounts": true}
 
 func TestPropIdentityPropagation(t *testing.T) {
-	sub := stats.NewSub("identity-propagation", "rapid: authenticated identity (name, 0-4 groups, 0-3 extra keys x 1-2 values with %, /, blanks, UTF-8, upper case, literal %XX sequences), client header set (Authorization valid / second value / other scheme / unknown token / none; Impersonate-User 0-2 values incl. empty first value and service-account form; Impersonate-Group 0-3; Impersonate-Extra-<key> escaped or raw; other Impersonate-* names) written in lower / upper / mixed case on a real HTTP/1.1 connection, one request in five as an upgrade (exec style) request, and a deny set for the authorizer; oracle: reference impersonation semantics decide 401 / >=400 malformed / 403 / forwarded, and for forwarded requests the identity the stub upstream decodes == the effective identity, Authorization == exactly the gateway credential, no Impersonate-* header other than those generated from the effective identity; non-trivial = the client sent an identity-bearing header other than one valid Authorization, or the identity has extras / non-alphanumeric bytes; distinct by FNV-64 of (identity, headers, deny set)")
+	sub := stats.NewSub("identity-propagation", "rapid: authenticated identity (name, 0-4 groups, 0-3 extra keys x 1-2 values with %, /, blanks, UTF-8, upper case, literal %XX sequences), client header set (Authorization valid / second value / other scheme / unknown token / none; Impersonate-User 0-2 values incl. empty first value and service-account form; Impersonate-Group 0-3; Impersonate-Extra-<key> escaped or raw; other Impersonate-* names) written in lower / upper / mixed case on a real HTTP/1.1 connection, one request in five as an upgrade (exec style) request, one in eight right after the endpoint's transport was rebuilt (what the gateway does when health probes hang), and a deny set for the authorizer; oracle: reference impersonation semantics decide 401 / >=400 malformed / 403 / forwarded, and for forwarded requests the identity the stub upstream decodes == the effective identity, Authorization == exactly the gateway credential, no Impersonate-* header other than those generated from the effective identity; non-trivial = the client sent an identity-bearing header other than one valid Authorization, or the identity has extras / non-alphanumeric bytes; distinct by FNV-64 of (identity, headers, deny set)")
 	stats.Check(t, stats.N(8000, 60000), func(t *rapid.T) {
 		id := genIdentity(t)
 		cr := genClientHeaders(t)
@@ -249,6 +249,20 @@ func TestPropIdentityPropagation(t *testing.T) {
 			rr = gwbox.RawRequest{Method: "POST", Target: "/api/v1/namespaces/default/pods/p/exec?command=id", Host: "alpha", Headers: headers, Upgrade: "SPDY/3.1", UpgradeWrites: [][]byte{{1}}, UpgradeExpect: 1}
 			pool.SetReply(reqID, &gwbox.Reply{Upgrade: "SPDY/3.1"})
 			sub.Class("upgrade-request")
+		}
+		if rapid.IntRange(0, 7).Draw(t, "transportResetBefore") == 0 {
+			// the gateway rebuilds an endpoint's transport when its health probes hang (GatewayHealthCheck calls
+			// ResetTransport after three hanging probes): requests afterwards must carry the same identity
+			if ci, ok := gateway.Box.Controller.Get("alpha"); ok {
+				for _, e := range ci.AllEndpoints() {
+					if info, ok := ci.Endpoints.Load(e); ok {
+						if err := info.ResetTransport(); err != nil {
+							t.Fatalf("harness: ResetTransport: %v", err)
+						}
+					}
+				}
+			}
+			sub.Class("request-after-a-transport-reset")
 		}
 		resp := gateway.Do(ctx, rr)
 		cancel()
